@@ -86,3 +86,92 @@ Ltac dec_tac :=
                       end; cbv iota
                   end ]);
   cbn [tree_eval].
+
+(* ---- C05 helpers: a decoded field is what the encoder would have produced *)
+Lemma iw_ext x y : value x = value y -> nbits x = nbits y -> x = y.
+Proof. destruct x, y. cbn. intros -> ->. reflexivity. Qed.
+
+Lemma canon_id x w : canonical x -> nbits x = w -> mk (value x) (Some w) = x.
+Proof.
+  intros [Hn Hv] <-. destruct x as [v n]. cbn [mk value nbits] in *. rewrite mask_small by lia. reflexivity.
+Qed.
+
+(* split a hypothesis  tree_eval (...) = DecOk ov  along the decode tree, keeping the equations of the passing path.
+   Inversion lemmas are used instead of `destruct c eqn:` on the (large) condition terms: the kernel re-check of the
+   dependent match that destruct builds does not come back on these open Z-heavy terms. *)
+Lemma node_inv (c : bool) (t f : tree dec_model) r :
+  tree_eval (Node c t f) = r -> (c = true /\ tree_eval t = r) \/ (c = false /\ tree_eval f = r).
+Proof. cbn [tree_eval]. destruct c; intros H; [left|right]; split; auto. Qed.
+Lemma leaf_raise_inv c ov : tree_eval (Leaf (DecRaise c)) = DecOk ov -> False.
+Proof. discriminate. Qed.
+Lemma leaf_unknown_inv ov : tree_eval (Leaf DecUnknown) = DecOk ov -> False.
+Proof. discriminate. Qed.
+Lemma negb_eqb_false a b : negb (a =? b) = false -> a = b.
+Proof. intros H. apply negb_false_iff in H. apply Z.eqb_eq in H. exact H. Qed.
+Lemma negb_eqb_true a b : negb (a =? b) = true -> a <> b.
+Proof. intros H. apply negb_true_iff in H. apply Z.eqb_neq in H. exact H. Qed.
+
+Ltac cond_to_eq H :=
+  first [ apply negb_eqb_false in H
+        | apply negb_eqb_true in H
+        | apply Z.eqb_eq in H
+        | apply Z.eqb_neq in H
+        | idtac ].
+
+Ltac split_tree H :=
+  repeat match type of H with
+         | tree_eval (Node _ _ _) = _ =>
+             let E := fresh "Ec" in
+             apply node_inv in H; destruct H as [[E H]|[E H]]; cond_to_eq E
+         | tree_eval (Leaf (DecRaise _)) = DecOk _ => exfalso; exact (leaf_raise_inv _ _ H)
+         | tree_eval (Leaf DecUnknown) = DecOk _ => exfalso; exact (leaf_unknown_inv _ H)
+         end.
+
+(* widths of the emitted field expressions, without computing their values *)
+Lemma slice_iw_nbits x inv w s : 0 < w -> 0 <= s -> nbits (slice_iw x inv (Some w) (Some s)) = w.
+Proof.
+  intros Hw Hs. unfold slice_iw, slice_val.
+  destruct (negb (s =? 0) && (0 <=? w)) eqn:E1.
+  - destruct (s <? 0) eqn:E2; [lia|]. destruct inv; reflexivity.
+  - destruct (0 <? w) eqn:E3; [|lia]. destruct inv; reflexivity.
+Qed.
+Lemma slice_iw_nostep_nbits x inv w : 0 < w -> nbits (slice_iw x inv (Some w) None) = w.
+Proof. intros Hw. unfold slice_iw, slice_val. destruct (0 <? w) eqn:E3; [|lia]. destruct inv; reflexivity. Qed.
+
+(* everything is matched syntactically (constr_eq): non-linear Ltac patterns and `assumption` compare up to
+   conversion, which on these open Z-heavy field expressions does not come back *)
+Ltac hyp_eq :=
+  match goal with
+  | H : ?a = ?b |- ?c = ?d => first [ constr_eq a c; constr_eq b d; exact H | constr_eq a d; constr_eq b c; exact (eq_sym H) ]
+  end.
+
+Ltac same_tac := match goal with |- ?x = ?y => constr_eq x y; reflexivity end.
+
+Ltac nbits_tac :=
+  repeat match goal with H : nbits ?f = _ |- context [nbits ?g] => constr_eq f g; rewrite H end;
+  first [ rewrite slice_iw_nbits by lia
+        | rewrite slice_iw_nostep_nbits by lia
+        | idtac ];
+  first [ same_tac
+        | match goal with
+          | |- _ = nbits (mk _ (Some _)) => reflexivity
+          | |- nbits (mk _ (Some _)) = _ => reflexivity
+          end ].
+
+Ltac field_tac :=
+  first [ same_tac
+        | match goal with
+          | Hc : canonical ?g, Hn : nbits ?h = ?v |- ?f = mk ?c (Some ?w) =>
+              constr_eq f g; constr_eq f h; constr_eq w v;
+              refine (eq_trans (eq_sym (canon_id f w Hc Hn)) _);
+              apply (f_equal (fun z => mk z (Some w))); first [hyp_eq | congruence]
+          end
+        | apply iw_ext; [first [hyp_eq | congruence] | nbits_tac] ].
+
+Ltac fields_tac :=
+  repeat match goal with
+         | Hc : canonical ?f, Hn : nbits ?g = ?w |- context [mk (value ?h) (Some ?v)] =>
+             constr_eq f g; constr_eq f h; constr_eq w v; rewrite (canon_id f w Hc Hn)
+         end;
+  repeat match goal with |- _ :: _ = _ :: _ => apply (f_equal2 cons) end;
+  field_tac.
